@@ -180,7 +180,15 @@ func c04IndexCheck(ctx context.Context, r *rt.Rec, st storage.Store, data bq.Dat
 			continue
 		}
 		seen := map[string]bool{}
-		for _, t := range ts {
+		// at most ~40 triples per graph are probed (every k-th), so that the cost
+		// stays linear in the size of the graph; the harness's own work announces
+		// progress to the watchdog
+		step := 1 + len(ts)/40
+		for ti, t := range ts {
+			if ti%step != 0 {
+				continue
+			}
+			r.Note(fmt.Sprintf("index check of %s after %s (%d/%d)", gname, kind, ti, len(ts)))
 			for _, q := range []ref.Query{
 				{Method: "Objects", S: t.Subject(), P: t.Predicate()},
 				{Method: "Subjects", P: t.Predicate(), O: t.Object()},
